@@ -247,7 +247,7 @@ def search(prop, family, meta, tier, seed, workers, budget, binary, scratch, t0,
             fail_counts[cls] = fail_counts.get(cls, 0) + 1
             if cls in known_keys:
                 known_hit[cls] = what
-            else:
+            elif not any(v[0] == cls and v[2] == what for v in violations):
                 violations.append((cls, path, what))
         else:
             harness.append("worker died (exit %s) at seed %s but the seed alone passes:\n%s" % (code, cur, se))
